@@ -189,6 +189,89 @@ fn ser_comp_in(g: &CG) -> Vec<Vec<i128>> {
     vec![g.bbox.iter().map(|v| *v as i128).collect(), cs, b2z(&g.instr)]
 }
 
+// ---------- read_points_fast on the real code (mirrors ser_fast_glyph / dirty_flags in Model.v) ----------
+fn dirty_flag(bits: u8) -> rg::PointFlags {
+    // every bit except 0x40 is reachable through the public API: from_bits keeps 0x81, markers give 0x3e
+    let mut f = rg::PointFlags::from_bits(bits);
+    for (m, mk) in [
+        (0x02u8, rg::PointMarker::WEAK_INTERPOLATION),
+        (0x04, rg::PointMarker::HAS_DELTA),
+        (0x08, rg::PointMarker::NEAR),
+        (0x10, rg::PointMarker::TOUCHED_X),
+        (0x20, rg::PointMarker::TOUCHED_Y),
+    ] {
+        if bits & m != 0 {
+            f.set_marker(mk);
+        }
+    }
+    f
+}
+fn fast_tag(r: &Result<Result<(), read_fonts::ReadError>, String>) -> i128 {
+    match r {
+        Err(_) => 0,
+        Ok(Ok(())) => 4,
+        Ok(Err(read_fonts::ReadError::InvalidArrayLen)) => 1,
+        Ok(Err(read_fonts::ReadError::OutOfBounds)) => 2,
+        Ok(Err(_)) => 3,
+    }
+}
+fn ser_fast_glyph(s: &rg::SimpleGlyph, total_len: usize) -> Vec<Vec<i128>> {
+    const PAT: [u8; 5] = [0, 54, 18, 36, 191];
+    let n = s.num_points();
+    let fl0: Vec<rg::PointFlags> = (0..n).map(|i| dirty_flag(PAT[(i + total_len) % 5])).collect();
+    // garbage in the points slice too: the result must not depend on it
+    let mut p32 = vec![read_fonts::types::Point::<i32>::new(0x5a5a5a5a, -77); n];
+    let mut fl = fl0.clone();
+    let s2 = s.clone();
+    let r = catch(move || {
+        let r = s2.read_points_fast(&mut p32, &mut fl);
+        (r, p32, fl)
+    });
+    let (tag, pts) = match r {
+        Err(e) => (fast_tag(&Err(e)), None),
+        Ok((r, p, f)) => {
+            let ok = r.is_ok();
+            (fast_tag(&Ok(r)), if ok { Some((p, f)) } else { None })
+        }
+    };
+    let (mut dxs, mut dys, mut fs) = (vec![], vec![], vec![]);
+    if let Some((p, f)) = pts {
+        let (mut lx, mut ly) = (0i128, 0i128);
+        for (pt, fl) in p.iter().zip(&f) {
+            dxs.push(pt.x as i128 - lx);
+            dys.push(pt.y as i128 - ly);
+            lx = pt.x as i128;
+            ly = pt.y as i128;
+            // all 8 bits of the flag byte as the public API shows them
+            let mut bits = 0i128;
+            if fl.is_on_curve() {
+                bits |= 1;
+            }
+            if fl.is_off_curve_cubic() {
+                bits |= 0x80;
+            }
+            for (m, mk) in [
+                (0x02i128, rg::PointMarker::WEAK_INTERPOLATION),
+                (0x04, rg::PointMarker::HAS_DELTA),
+                (0x08, rg::PointMarker::NEAR),
+                (0x10, rg::PointMarker::TOUCHED_X),
+                (0x20, rg::PointMarker::TOUCHED_Y),
+            ] {
+                if fl.has_marker(mk) {
+                    bits |= m;
+                }
+            }
+            fs.push(bits);
+        }
+    }
+    // wrong output slice length
+    let mut p_bad = vec![read_fonts::types::Point::<i32>::default(); n + 1];
+    let mut fl_bad = fl0.clone();
+    let s3 = s.clone();
+    let r2 = catch(move || s3.read_points_fast(&mut p_bad, &mut fl_bad));
+    vec![vec![tag], dxs, dys, fs, vec![fast_tag(&r2)]]
+}
+
 // ---------- the read-fonts view of a byte string (mirrors ser_decode in Model.v) ----------
 fn ser_decode(bytes: &[u8]) -> Vec<Vec<i128>> {
     let b = bytes.to_vec();
@@ -216,7 +299,9 @@ fn ser_decode(bytes: &[u8]) -> Vec<Vec<i128>> {
                             lx = p.x as i128;
                             ly = p.y as i128;
                         }
-                        vec![vec![2], hdr, ends, ins, vec![1], dxs, dys, ons]
+                        let mut v = vec![vec![2], hdr, ends, ins, vec![1], dxs, dys, ons];
+                        v.extend(ser_fast_glyph(&s, b.len()));
+                        v
                     }
                 }
             }
@@ -825,6 +910,61 @@ fn do_composite(cx: &mut Ctx, g: &CG, model: bool) -> Option<Vec<u8>> {
         cx.push(3, &ser_comp_in(g), &ser_enc(&res));
     }
     res.ok().and_then(|r| r.ok())
+}
+
+/// Implementation-only comparison of the two real readers of a simple glyph (round 7):
+/// points() (PointIter) against read_points_fast, the latter with a clean and with a dirty flags slice.
+fn fast_observe(cx: &mut Ctx, bytes: &[u8]) {
+    let b = bytes.to_vec();
+    let r = catch(move || {
+        let Ok(rg::Glyph::Simple(s)) = rg::Glyph::read(FontData::new(&b)) else { return None };
+        let n = s.num_points();
+        let pts: Vec<(i32, i32, bool)> = s.points().map(|p| (p.x as i32, p.y as i32, p.on_curve)).collect();
+        let run = |fill: u8| {
+            let mut p32 = vec![read_fonts::types::Point::<i32>::default(); n];
+            let mut fl = vec![dirty_flag(fill); n];
+            let r = s.read_points_fast(&mut p32, &mut fl);
+            r.map(|_| p32.iter().zip(&fl).map(|(p, f)| (p.x, p.y, f.is_on_curve())).collect::<Vec<_>>())
+        };
+        Some((n, pts, run(0), run(54), run(48)))
+    });
+    let Ok(Some((n, pts, clean, dirty, dirty2))) = r else {
+        cx.st.count("obs.fast.not_simple_or_panic");
+        return;
+    };
+    cx.st.evaluations += 3;
+    let same = |a: &Result<Vec<(i32, i32, bool)>, read_fonts::ReadError>, b: &Result<Vec<(i32, i32, bool)>, read_fonts::ReadError>| match (a, b) {
+        (Ok(x), Ok(y)) => x == y,
+        (Err(_), Err(_)) => true,
+        _ => false,
+    };
+    let key = format!("fast-{:016x}", fnv(bytes));
+    // ORACLE (since /repo 6f0a45e): the result must not depend on what the flags slice held before the call
+    if !same(&clean, &dirty) || !same(&clean, &dirty2) {
+        cx.st.count("obs.fast.result_depends_on_caller_flags");
+        cx.fail(key.clone(), "read_points_fast result depends on the prior content of the caller's flags slice", json!({"bytes": bytes, "clean": format!("{clean:?}"), "dirty54": format!("{dirty:?}"), "dirty48": format!("{dirty2:?}")}));
+    }
+    match (&clean, pts.len() == n && n > 0) {
+        (Ok(f), true) => {
+            let narrowed: Vec<(i32, i32, bool)> = f.iter().map(|p| (p.0 as i16 as i32, p.1 as i16 as i32, p.2)).collect();
+            if *f == pts {
+                cx.st.count("obs.fast.equal_points");
+            } else if narrowed == pts {
+                cx.st.count("obs.fast.equal_points_after_i16_narrowing");
+            } else {
+                // ORACLE: where points() decodes, read_points_fast must give the same points up to i16 narrowing
+                cx.st.count("obs.fast.OK_BUT_DIFFERS_FROM_POINTS");
+                cx.fail(key.clone(), "read_points_fast Ok but != points() (even after i16 narrowing)", json!({"bytes": bytes, "points": format!("{pts:?}"), "fast": format!("{f:?}")}));
+            }
+        }
+        (Err(e), true) => {
+            // ORACLE: c09_read_points_fast_eq_points — it must succeed wherever points_impl does
+            cx.st.count("obs.fast.ERR_WHERE_POINTS_DECODES");
+            cx.fail(key.clone(), "read_points_fast Err where points() decodes", json!({"bytes": bytes, "points": format!("{pts:?}"), "err": format!("{e:?}")}));
+        }
+        (Ok(_), false) => cx.st.count("obs.fast.ok_where_points_empty"),
+        (Err(_), false) => cx.st.count("obs.fast.err_where_points_empty"),
+    }
 }
 
 fn do_decode(cx: &mut Ctx, bytes: &[u8]) {
@@ -1910,6 +2050,93 @@ fn main() {
                 b[1] = 0xff;
             }
         }
+        do_decode(&mut cx, &b);
+    }
+    // --- read_points_fast vs points() on FOREIGN encodings (round 7): legal-but-unusual flag streams
+    //     (REPEAT with count 0, reserved bits), i16-wrapping coordinate sums, truncated flag / coordinate
+    //     data, extra tail bytes.  Every case goes to the shards (model of read_points_fast AND points()),
+    //     and the two real readers are compared with each other (observation counters, not an alarm:
+    //     the writer never produces these streams). ---
+    let hdr = |n: usize| -> Vec<u8> {
+        let mut v = vec![0u8, 1, 0, 0, 0, 0, 0, 0, 0, 0];
+        v.extend(((n as u16).wrapping_sub(1)).to_be_bytes());
+        v.extend([0u8, 0]);
+        v
+    };
+    let fixed: Vec<(usize, Vec<u8>)> = vec![
+        (2, vec![9, 0, 9, 0, 0, 1, 0, 2, 0, 3, 0, 4]), // ExamplesF.c09_fast_zero_repeat_refuted
+        (2, vec![33, 33, 127, 255, 0, 1]),             // ExamplesF.c09_fast_wrap_refuted
+        (1, vec![1, 0, 5]),                            // ExamplesF.c09_fast_truncated_coords_differs
+        (2, vec![49]),                                 // ExamplesF.c09_fast_depends_on_caller_flags
+        (2, vec![49, 49]),
+        (3, vec![59, 1, 4, 5, 6, 1, 0, 9]),            // ExamplesF.c09_fast_eq_points_nonvacuous
+        (3, vec![0x3f, 0, 0x3f, 0, 0x3f, 0, 1, 2, 3, 4, 5, 6]),
+        (1, vec![8]),
+        (2, vec![0x39, 7]),
+    ];
+    for (n, gd) in &fixed {
+        let mut b = hdr(*n);
+        b.extend(gd);
+        fast_observe(&mut cx, &b);
+        do_decode(&mut cx, &b);
+    }
+    for _ in 0..(400 * scale) {
+        let n = rng.range(1, 7) as usize;
+        let mut fl_bytes = vec![];
+        let mut efl = vec![];
+        while efl.len() < n {
+            let mut f = (rng.below(64) as u8) & !8;
+            if rng.chance(1, 8) {
+                f |= *rng.pick(&[0x40u8, 0x80, 0xc0]);
+            }
+            if rng.chance(2, 5) {
+                let left = n - efl.len();
+                let r = match rng.below(6) {
+                    0 | 1 | 2 => 0,
+                    3 => (left - 1) as u8,
+                    4 => rng.below(left as u64) as u8,
+                    _ => left as u8, // one too many: "repeat count too large"
+                };
+                fl_bytes.extend([f | 8, r]);
+                for _ in 0..=(r as usize) {
+                    efl.push(f);
+                }
+            } else {
+                fl_bytes.push(f);
+                efl.push(f);
+            }
+        }
+        let mut xs = vec![];
+        let mut ys = vec![];
+        for f in &efl {
+            for (short, same, out) in [(2u8, 16u8, &mut xs), (4, 32, &mut ys)] {
+                if f & short != 0 {
+                    out.push(*rng.pick(&[0u8, 1, 127, 128, 255]));
+                } else if f & same == 0 {
+                    let v: i16 = *rng.pick(&[0i16, 1, -1, 255, 256, -256, 32767, -32768, 30000, -30000, 12345]);
+                    out.extend(v.to_be_bytes());
+                }
+            }
+        }
+        let mut gd = fl_bytes;
+        gd.extend(xs);
+        gd.extend(ys);
+        match rng.below(8) {
+            0 => {
+                let k = rng.range(1, 4) as usize;
+                let l = gd.len().saturating_sub(k);
+                gd.truncate(l);
+            }
+            1 => gd.extend(rng.bytes(2)),
+            2 => {
+                let l = rng.below(gd.len() as u64 + 1) as usize;
+                gd.truncate(l);
+            }
+            _ => {}
+        }
+        let mut b = hdr(n);
+        b.extend(&gd);
+        fast_observe(&mut cx, &b);
         do_decode(&mut cx, &b);
     }
     // --- loca ---
